@@ -45,6 +45,18 @@ int main (void)
         struct sockaddr_in sa; memset (&sa, 0, sizeof sa); sa.sin_family = AF_INET; sa.sin_port = htons (1234); sa.sin_addr.s_addr = htonl (0x0a000001);
         int rr = stun_usage_ice_conncheck_create_reply (&ag, &m, &rep, ob, &ol, (struct sockaddr_storage *) &sa, sizeof sa, &ctl, 0x1122334455667788ULL, icec);
         P (" rp=%d:%zu", rr, ol);
+        if (rr == STUN_USAGE_ICE_RETURN_SUCCESS && ol >= 20) {
+          /* reads back equal: the mapped address decodes to the source given, the request's USERNAME is echoed */
+          struct sockaddr_storage back; socklen_t bl = sizeof back; memset (&back, 0, sizeof back); int mr;
+          if (icec == STUN_USAGE_ICE_COMPATIBILITY_MSN) { StunTransactionId id; stun_message_id (&rep, id); uint32_t ck; memcpy (&ck, id, 4);
+            mr = stun_message_find_xor_addr_full (&rep, STUN_ATTRIBUTE_XOR_MAPPED_ADDRESS, &back, &bl, htonl (ck)); }
+          else if (stun_message_has_cookie (&rep) && icec != STUN_USAGE_ICE_COMPATIBILITY_GOOGLE) mr = stun_message_find_xor_addr (&rep, STUN_ATTRIBUTE_XOR_MAPPED_ADDRESS, &back, &bl);
+          else mr = stun_message_find_addr (&rep, STUN_ATTRIBUTE_MAPPED_ADDRESS, &back, &bl);
+          struct sockaddr_in *b4 = (struct sockaddr_in *) &back;
+          P (" rm=%d", mr == STUN_MESSAGE_RETURN_SUCCESS && b4->sin_family == AF_INET && b4->sin_port == sa.sin_port && b4->sin_addr.s_addr == sa.sin_addr.s_addr);
+          uint16_t ul1 = 0, ul2 = 0; const void *u1 = stun_message_find (&m, STUN_ATTRIBUTE_USERNAME, &ul1), *u2 = stun_message_find (&rep, STUN_ATTRIBUTE_USERNAME, &ul2);
+          if (!u1) P (" ru=-"); else P (" ru=%d", u2 != NULL && ul1 == ul2 && !memcmp (u1, u2, ul1));
+        }
         /* whatever length is reported must be a complete, well-formed message inside the output buffer */
         P (" rw=%d", ol == 0 ? 1 : (ol <= outcap && ol >= 20 && stun_message_validate_buffer_length (ob, ol, !(flags & STUN_AGENT_USAGE_NO_ALIGNED_ATTRIBUTES)) == (int) ol));
         uint8_t *eb = (uint8_t *) malloc (outcap ? outcap : 1) + (outcap ? 0 : 1); StunMessage em;
